@@ -56,10 +56,31 @@ pub fn run(o: &Opts) {
                 _ => SourceBlockEncoder::new(0, cfg, d),
             }
         };
+        // large symbols: keep a projection of the byte positions (both ends, around every multiple of 4096 and of 64 near the
+        // start, and a random sample) - the relations are position-wise
+        let pos: Option<Vec<usize>> = if t > 300 {
+            let mut p: Vec<usize> = (0..16).chain(56..72).chain(t - 16..t).collect();
+            for m in (4096..t).step_by(4096) {
+                p.extend((m - 3)..(m + 3).min(t));
+                p.extend((m + 60).min(t - 1)..(m + 68).min(t));
+            }
+            for _ in 0..24 {
+                p.push(rng.random_range(0..t));
+            }
+            p.retain(|x| *x < t);
+            p.sort();
+            p.dedup();
+            Some(p)
+        } else {
+            None
+        };
+        let posr = pos.clone();
         let r = catch(std::panic::AssertUnwindSafe(|| {
-            let pl = |d: &[u8], cfg: &Oti| -> Vec<Vec<u8>> { packets(&build(cfg, d), k, &starts).iter().map(|p| p.data().to_vec()).collect() };
+            let proj = |v: &[u8]| -> Vec<u8> { match &posr { Some(p) => p.iter().map(|&i| v[i]).collect(), None => v.to_vec() } };
+            let pl = |d: &[u8], cfg: &Oti| -> Vec<Vec<u8>> { packets(&build(cfg, d), k, &starts).iter().map(|p| if cfg.symbol_size() as usize == t && t > 1 { proj(p.data()) } else { p.data().to_vec() }).collect() };
             let esis: Vec<u32> = packets(&build(&cfg, &a), k, &starts).iter().map(|p| p.payload_id().encoding_symbol_id()).collect();
-            let cols: Vec<Vec<u8>> = (0..t)
+            let which: Vec<usize> = match &posr { Some(p) => p.clone(), None => (0..t).collect() };
+            let cols: Vec<Vec<u8>> = which.iter().map(|&j| j)
                 .map(|j| {
                     let col: Vec<u8> = (0..k).map(|i| a[i * t + j]).collect();
                     pl(&col, &cfg1).iter().map(|p| p[0]).collect()
@@ -68,6 +89,9 @@ pub fn run(o: &Opts) {
             (esis, pl(&a, &cfg), pl(&b, &cfg), pl(&ab, &cfg), pl(&ca, &cfg), cols)
         }));
         let mut ev: Value = json!({"ev":"lin","k":k,"t":t,"c":c,"data":(["random","structured","structured+equal"][kind]),"route": if use_plan {"plan"} else {"new"}});
+        if let Some(p) = &pos {
+            ev["pos"] = json!(p);
+        }
         match r {
             Ok((esis, pa, pb, pab, pca, cols)) => {
                 ev["res"] = json!("ok");
